@@ -1,4 +1,5 @@
 from .common import *
+from . import c09, c10
 
 def run(tier):
     r = Run('C01', tier)
@@ -19,18 +20,28 @@ def run(tier):
             cfgs.append((3, n, n % 5, n % 3, 1))
     for th, n, ct, ht, buf in cfgs:
         e2e_ob(r, 'roundtrip-T%d-len%d-c%d-h%d-chunk%d' % (th, n, ct, ht, 16 * buf), th, n, ct, ht, buf, extra=['ROUNDTRIP'], timeout=900 if tier == 'quick' else 3600)
+    # boundary bytes: the byte at a chunk boundary (and the block before it) concrete 0xFF / 0xFE (-> 0xFF in the marker ciphertext) / 0x00 / 0x0A
+    for th, n, ct, ht, buf, fixes in ((1, 33, 1, 0, 1, ((16, 255), (32, 255), (15, 255))), (1, 33, 2, 1, 1, ((16, 254), (32, 254), (31, 255))), (2, 48, 3, 2, 1, ((16, 255), (32, 254), (47, 0))),
+                                      (2, 49, 4, 0, 1, ((16, 0), (32, 10), (48, 255))), (1, 65, 0, 1, 2, ((32, 255), (64, 254), (0, 255)))):
+        ex = ['ROUNDTRIP']
+        for i, (o, v) in enumerate(fixes):
+            ex += ['FIX%d_OFF=%d' % (i + 1, o), 'FIX%d_VAL=%d' % (i + 1, v)]
+        e2e_ob(r, 'roundtrip-boundary-bytes-T%d-len%d-c%d-h%d-chunk%d-%s' % (th, n, ct, ht, 16 * buf, '_'.join('%d=%02x' % f for f in fixes)), th, n, ct, ht, buf, extra=ex, timeout=900 if tier == 'quick' else 3600)
     # the text offset 48+20T for every worker count 1..16 (prepare_IV + prepare_AES on the real runcrypt; no hashing involved)
     ug, ureal = U_kern_gate(), U_kern('kern')
     for th in range(1, 17):
         fl = 48 + 20 * th + 16
         r.add(Ob('text-offset-T%d' % th, 'h_verify.c', [ug], defines=['H_SEEK', 'FLEN=%d' % fl, 'THREADS=%d' % th, 'SREF_MSGMAX=16'], unwind=max(400, fl + 40), timeout=300, envs=KERN_ENVS,
                  replay_units=[ureal], replay_envs=NATIVE_FILE_ENVS, cbmc_extra=FS))
+    # "decryption restores": the real stream objects (decryptor inverts encryptor: obligations of C10) and the real block function (obligations of C09)
+    c10.mode_obligations(r, tier, prefix='mode-')
+    c09.block_obligations(r, tier, prefix='block-')
     r.bounds = ['(T, plaintext bytes, cipher mode byte, hash mode, chunk bytes) in %s; all plaintext contents, keys and seeds of %d bytes symbolic; canonical schedule (C03 decides schedule independence)' % (cfgs if tier == 'quick' else '%d configurations' % len(cfgs), 5)]
-    r.outside = ['production chunk size 16 MiB (the code uses BUF_SZ/sum only as fread size, comparison with the read count and array bound)', 'T > 3', 'the cipher and hash themselves (marker / uninterpreted here; C09, C10, C07)', 'I/O errors']
+    r.outside = ['production chunk size 16 MiB (the code uses BUF_SZ/sum only as fread size, comparison with the read count and array bound)', 'T > 3', 'the hash values (uninterpreted here; C07); in the end-to-end runs the cipher is an invertible marker - the real mode objects and the real block function are covered by the mode-* / block-* obligations (shared with C10 / C09)', 'I/O errors']
     r.assumptions = ['block cipher replaced by an invertible marker keyed by (stream, sequence number): decrypt(encrypt(P)) == P then shows padding, chunk distribution, header skip and gating are mutually inverse; stream inverse is C10',
                      'compression functions uninterpreted', 'tag comparison asserted equal (C08 decides the comparison)', 'std::thread/mutex/condition_variable per env/env_sched.c']
-    r.run_all(jobs=10)
+    r.run_all(jobs=14)
     return r.finish()
 
 def replay(rp):
-    return generic_replay(rp, {'kern_e2e_b1': lambda: U_kern('kern', buf=1), 'kern_e2e_b2': lambda: U_kern('kern', buf=2)})
+    return generic_replay(rp, {'kern_e2e_b1': lambda: U_kern('kern', buf=1), 'kern_e2e_b2': lambda: U_kern('kern', buf=2), 'kern_gate': U_kern, 'aes': U_aes, 'aes_blkuf': U_aes, 'aes_uf': U_aes, 'aes_kuf': U_aes})
